@@ -50,6 +50,8 @@ SPACES = {
               ("qli", ["qlograndint", 2, 16, 2])],
     # size 200: large enough that rejection sampling can run out of retries before the space is used up
     "fin200": [("a", ["randint", 0, 9]), ("b", ["randint", 0, 9]), ("c", ["choice", ["x", "y"]]), ("k", ["const", 7])],
+    # log-scaled floats whose bounds do not survive exp(log(.)) exactly; initial points exactly on the bounds
+    "logb": [("lu", ["loguniform", 1e-5, 0.1]), ("rl", ["reverseloguniform", 0.1, 0.7]), ("i", ["randint", 0, 1])],
     # grid with a float and a log float (num_samples given), full int range
     "gridf": [("u", ["uniform", 0.0, 3.0]), ("lu", ["loguniform", 0.01, 1.0]), ("i", ["randint", 1, 3])],
 }
@@ -88,6 +90,7 @@ P2E = {
     "mix": {"none": None, "partial": [{"lu": 0.5}, {"lf": 8, "oe": "l"}, {"fi": 0}], "empty": []},
     "finlog": {"none": None, "empty": [], "partial": [{"lo": 64}, {"li": 2, "lf": 8.0}]},
     "quant": {"none": None, "empty": [], "partial": [{"qu": 0.25}, {"qi": 8, "qli": 4}]},
+    "logb": {"none": None, "onbound": [{"lu": 0.1, "rl": 0.1, "i": 0}, {"lu": 1e-5, "rl": 0.7, "i": 1}, {"lu": 0.1}]},
     "fin200": {"none": None, "partial": [{"a": 3}, {"c": "y", "b": 0}, {"a": 3}], "castable": [{"a": 3.0, "b": 7.0}, {"b": 0.0}]},
     "gridf": {"none": None, "empty": [], "ongrid": [{"u": 0.5, "lu": 0.1 ** 1.5, "i": 3}, {"u": 2.5}],
               "partial": [{"i": 1}, {"u": 0.1}]},
